@@ -169,6 +169,21 @@ CHECKS = {
              "(CrashMid) but not reproducible by injection. Durability (fsync) is outside the property.",
         technique="TLA+ model checking (TLC) of AtomicWrite.tla + fault/crash scenario replay via strace injection + syscall-trace validation (FsTrace.tla)",
         design="§6 C14"),
+    "C12": dict(
+        level="exploration",
+        text="spec/Pipeline.tla is the staged call protocol of reformat_text / fill_markdown (SplitFM, Preprocess, Parse, [Cleanups], "
+             "[Quotes], [Ellipses], Render, Return; plaintext: Fill, Return); it has no Raise and no Timeout action, TLC checks Terminates "
+             "under weak fairness and the stage order. Inputs: every string of <= 2 (quick) / <= 3 (thorough, every second) symbols over a "
+             "50-symbol alphabet of delimiters, markers, control characters (NUL, CR, TAB, VT, LS), placeholder look-alikes and filler; seeded "
+             "soups of 3..40 symbols; the construct corpus; nesting to depth 12; each with a rotating option point (6 widths incl. negative and "
+             "10^6 x 32 switch combinations x 3 list spacings, plaintext) under a CPU-time watchdog. spec/PipeTrace.tla decides per call: it "
+             "returned (no raise / timeout), the recorded stage functions equal the machine's stage sequence, and the result is a str ending "
+             "in a newline (Markdown mode) without control or placeholder bytes absent from the input and without added trailing spaces on "
+             "blank code lines. Pumped families (delimiter runs, long paragraphs / lists / tables / link and tag runs) are timed at n, 2n, 4n.",
+        note="Exploration level: inputs are enumerated/sampled, not a closed model. The growth clause is a CPU-time measurement with a "
+             "doubling-ratio test (x6 above a 0.25 s floor) -- TLA+ says nothing about performance; it is the weakest clause.",
+        technique="TLA+ call-protocol spec (TLC: termination, stage order) + spec-guided input exploration + trace validation (PipeTrace.tla)",
+        design="§6 C12, §7, §12"),
     "C13": dict(
         level="model_checking",
         text="TLC explores spec/Isolation.tla (2-3 concurrent calls x steps, preemption-bounded scheduler, taint through shared cells): "
